@@ -309,7 +309,8 @@ def h_fidelity(eng, tier, lang):
                               dict(case, owner=getattr(owner, 'name', None), bound_token=tk, occurrences_with=cw, occurrences_without=co)))
         if kind in ('override', 'open'):
             # exactly the line that declares the member changes; an override marker is printed iff the program carries it
-            ok = len(minus) == 1 and len(plus) == 1 and has_token(minus[0], name) and has_token(plus[0], name)
+            # (difflib may attach unchanged neighbouring lines, e.g. the closing brace, to the changed block)
+            ok = bool(minus) and bool(plus) and has_token(minus[0], name) and has_token(plus[0], name) and minus[1:] == plus[1:]
             obs.append(Ob('toggle-local|%s|%s' % (kind, lang), ok, case))
             if ok and kind == 'override':
                 w_line, wo_line = (minus[0], plus[0]) if carried_before else (plus[0], minus[0])
